@@ -199,8 +199,15 @@ func computeLoadEquiv(p *Prog, sums *Summaries, lf *LockFacts, fn *ssa.Function)
 				}
 				switch a := x.Addr.(type) {
 				case *ssa.Alloc:
+					// `return picked, nil` with named results stores the cell's own current value back: not a change
+					if rep, have := st["cell|"+a.Name()]; have && loadRep[x.Val] == rep {
+						break
+					}
 					st.killCell(a.Name())
 				case *ssa.FreeVar:
+					if rep, have := st["cell|^"+a.Name()]; have && loadRep[x.Val] == rep {
+						break
+					}
 					st.killCell("^" + a.Name())
 				}
 			case *ssa.MapUpdate:
